@@ -47,6 +47,7 @@ func (e *fnEnc) freshResults(v ssa.Value, sig *types.Signature, hint string) []s
 	for k := 0; k < res.Len(); k++ {
 		n := e.vc.fresh(hint+".r", e.S().SortOf(res.At(k).Type()))
 		e.vc.assume(e.typeFacts(n, res.At(k).Type(), 2))
+		e.assumeLoadedInv(n, res.At(k).Type())
 		out = append(out, n)
 	}
 	return out
@@ -320,19 +321,38 @@ func (e *fnEnc) applyContract(v ssa.Value, fn *ssa.Function, ct *FuncContract, c
 		name := e.vc.ordinal(fmt.Sprintf("%s#pre:%s.%s", FuncKey(e.fn), short, tag))
 		e.vc.oblige(&Obligation{Name: name, Kind: "pre", Guard: e.guard(), Cond: f, Props: props, Pos: instr.Pos(), Src: "requires of " + short + ": " + r.Src})
 	}
-	// recursion measure
+	// recursion measure (lexicographic tuple): every call into the recursion decreases it
 	if ct.Measure != nil && e.top && e.contract != nil && e.contract.Measure != nil && !e.inlineAssume {
-		callee, err1 := envPre.Term(ct.Measure.Expr)
-		own, err2 := e.entryEnv().Term(e.contract.Measure.Expr)
-		if err1 == nil && err2 == nil {
+		calleeM := append([]SExpr{ct.Measure.Expr}, ct.Measure.More...)
+		ownM := append([]SExpr{e.contract.Measure.Expr}, e.contract.Measure.More...)
+		if len(calleeM) == len(ownM) {
+			var cs, os []string
+			ok := true
+			ownEnv := e.entryEnv()
+			for k := range calleeM {
+				c, err1 := envPre.Term(calleeM[k])
+				o, err2 := ownEnv.Term(ownM[k])
+				if err1 != nil || err2 != nil {
+					e.fail("measure: %v %v", err1, err2)
+				}
+				cs, os = append(cs, c.T), append(os, o.T)
+				_ = ok
+			}
+			// lexicographic decrease with every component bounded below by 0
+			dec := "false"
+			for k := len(cs) - 1; k >= 0; k-- {
+				dec = fmt.Sprintf("(or (< %s %s) (and (= %s %s) %s))", cs[k], os[k], cs[k], os[k], dec)
+			}
+			var nonneg []string
+			for k := range os {
+				nonneg = append(nonneg, fmt.Sprintf("(>= %s 0)", os[k]), fmt.Sprintf("(>= %s 0)", cs[k]))
+			}
 			name := e.vc.ordinal(fmt.Sprintf("%s#rec-measure:%s", FuncKey(e.fn), short))
 			props := ct.Measure.Props
 			if len(props) == 0 {
-				props = ct.Props
+				props = ct.AllProps()
 			}
-			e.vc.oblige(&Obligation{Name: name, Kind: "rec-measure", Guard: e.guard(), Cond: fmt.Sprintf("(and (>= %s 0) (< %s %s))", own.T, callee.T, own.T), Props: props, Pos: instr.Pos(), Src: "recursion measure decreases: " + ct.Measure.Src})
-		} else {
-			e.fail("measure: %v %v", err1, err2)
+			e.vc.oblige(&Obligation{Name: name, Kind: "rec-measure", Guard: e.guard(), Cond: sAnd(append(nonneg, dec)...), Props: props, Pos: instr.Pos(), Src: "recursion measure decreases: " + ct.Measure.Src})
 		}
 	}
 	// frame
